@@ -10,6 +10,7 @@ import (
 	"runtime"
 	"runtime/debug"
 	"sort"
+	"strings"
 	"syscall"
 	"time"
 )
@@ -81,6 +82,7 @@ type Summary struct {
 	Recovered  map[string]int64 `json:"recv_recovered"` // panics AdapterProxy.Recv recovered, by cause
 	Viols      map[string]*Viol `json:"viols,omitempty"`
 	Rejects    []string         `json:"baseline_rejects,omitempty"` // valid baselines an owner rejected (machinery problem)
+	Calib      []string         `json:"calib,omitempty"`            // bulk-valid: measured allocation per valid input
 }
 
 func newSummary() *Summary {
@@ -142,6 +144,8 @@ func (s *Summary) merge(o *Summary) {
 		s.addViol(&c)
 	}
 	s.Rejects = append(s.Rejects, o.Rejects...)
+	s.Calib = append(s.Calib, o.Calib...)
+	sort.Strings(s.Calib)
 }
 
 // ExplicitResult is the answer to an explicit job.
@@ -259,32 +263,28 @@ func hexIfSmall(b []byte) string {
 	return ""
 }
 
-// allocSite re-runs the pair with every allocation profiled and returns the
-// TarsGo function that allocated the most bytes.
-func allocSite(e *entry, pkt []byte) string {
-	type key [32]uintptr
-	snap := func() map[key]int64 {
-		runtime.GC()
-		runtime.GC()
-		n, _ := runtime.MemProfile(nil, true)
-		recs := make([]runtime.MemProfileRecord, n+64)
-		n, ok := runtime.MemProfile(recs, true)
-		if !ok {
-			return nil
-		}
-		m := map[key]int64{}
-		for _, r := range recs[:n] {
-			m[r.Stack0] += r.AllocBytes
-		}
-		return m
+type profKey [32]uintptr
+
+// profSnap publishes and reads the allocation profile (bytes allocated per stack).
+func profSnap() map[profKey]int64 {
+	runtime.GC()
+	runtime.GC()
+	n, _ := runtime.MemProfile(nil, true)
+	recs := make([]runtime.MemProfileRecord, n+64)
+	n, ok := runtime.MemProfile(recs, true)
+	if !ok {
+		return nil
 	}
-	old := runtime.MemProfileRate
-	runtime.MemProfileRate = 1
-	before := snap()
-	execEntry(e, pkt)
-	after := snap()
-	runtime.MemProfileRate = old
-	var best key
+	m := map[profKey]int64{}
+	for _, r := range recs[:n] {
+		m[r.Stack0] += r.AllocBytes
+	}
+	return m
+}
+
+// profSite names the TarsGo function that allocated the most bytes between two snapshots.
+func profSite(before, after map[profKey]int64) string {
+	var best profKey
 	var bestN int64
 	for k, v := range after {
 		if d := v - before[k]; d > bestN && !ownStack(k[:]) {
@@ -311,7 +311,34 @@ func allocSite(e *entry, pkt []byte) string {
 	return "non-tars"
 }
 
-// ownStack: an allocation of this measurement itself (the record slices of snap).
+// measureProfiled runs the pair once with every allocation profiled: the
+// TotalAlloc delta (profiling does not allocate on the Go heap) and, if that
+// is over the bound, the largest allocation site.
+func (w *workerState) measureProfiled(e *entry, pkt []byte) (res execResult, delta uint64, site string) {
+	old := runtime.MemProfileRate
+	runtime.MemProfileRate = 1
+	before := profSnap()
+	a0 := w.totalAlloc()
+	res = execEntry(e, pkt)
+	a1 := w.totalAlloc()
+	delta = a1 - a0
+	if delta > budget(len(pkt)) {
+		site = profSite(before, profSnap())
+	}
+	runtime.MemProfileRate = old
+	return
+}
+
+// allocSite re-runs the pair profiled and returns the largest allocation site.
+func (w *workerState) allocSite(e *entry, pkt []byte) string {
+	_, _, site := w.measureProfiled(e, pkt)
+	if site == "" {
+		site = "unknown"
+	}
+	return site
+}
+
+// ownStack: an allocation of this measurement itself (the record slices of profSnap).
 func ownStack(pcs []uintptr) bool {
 	n := 0
 	for n < len(pcs) && pcs[n] != 0 {
@@ -320,7 +347,7 @@ func ownStack(pcs []uintptr) bool {
 	frames := runtime.CallersFrames(pcs[:n])
 	for {
 		f, more := frames.Next()
-		if contains(f.Function, "main.allocSite.func") { // the snap closure
+		if contains(f.Function, "main.profSnap") {
 			return true
 		}
 		if !more {
@@ -343,6 +370,7 @@ type pairRun struct {
 	ent  int
 	res  execResult
 	skip bool
+	slow bool // took more than 300 ms in pass 1: measured and profiled in one further execution
 }
 
 type batchCase struct {
@@ -420,12 +448,14 @@ func (w *workerState) runJob(j *Job) error {
 			e := w.es[r.ent]
 			pkt := c.pkt(e)
 			w.announce(j.Seq, c.idx, r.ent, 1, len(pkt))
+			t0 := time.Now()
 			r.res = execEntry(e, pkt)
+			r.slow = time.Since(t0) > 300*time.Millisecond
 		}
 		m1 := w.totalAlloc()
 		w.announce(j.Seq, batch[len(batch)-1].idx, -1, 0, 0)
 		// ---- pass 2 (only if the batch as a whole is over the smallest budget): measure every pair
-		remeasure := minLen >= 0 && m1-m0 > budget(minLen)
+		remeasure := minLen >= 0 && (m1-m0 > budget(minLen) || fam.name == "bulk-valid")
 		for i := range runs {
 			r := &runs[i]
 			c := batch[r.ci]
@@ -467,17 +497,27 @@ func (w *workerState) runJob(j *Job) error {
 			}
 			sum.Remeasured++
 			w.announce(j.Seq, c.idx, r.ent, 2, len(pkt))
-			a0 := w.totalAlloc()
-			execEntry(e, pkt)
-			a1 := w.totalAlloc()
-			d := a1 - a0
+			var d uint64
+			site := ""
+			if r.slow {
+				_, d, site = w.measureProfiled(e, pkt)
+			} else {
+				a0 := w.totalAlloc()
+				execEntry(e, pkt)
+				d = w.totalAlloc() - a0
+			}
 			if d > sum.MaxAlloc {
 				sum.MaxAlloc = d
 			}
+			if fam.name == "bulk-valid" {
+				sum.Calib = append(sum.Calib, fmt.Sprintf("%s on %s: packet %d bytes, %d bytes allocated = %.1f x len", c.label, e.name, len(pkt), d, float64(d)/float64(len(pkt))))
+			}
 			if d > budget(len(pkt)) {
 				sum.AllocViol++
-				w.announce(j.Seq, c.idx, r.ent, 3, len(pkt))
-				site := allocSite(e, pkt)
+				if site == "" {
+					w.announce(j.Seq, c.idx, r.ent, 3, len(pkt))
+					site = w.allocSite(e, pkt)
+				}
 				sig := fmt.Sprintf("alloc-amplification:%s:%s", e.class, site)
 				sum.addViol(&Viol{Sig: sig, Rule: "alloc-amplification", Entry: e.name, Family: fam.name, Idx: c.idx, Label: c.label, Len: len(pkt), InLen: len(c.input), InputHex: hexIfSmall(c.input),
 					Detail: fmt.Sprintf("%d bytes allocated while decoding %d bytes (bound 64*%d+65536 = %d); largest allocation site: %s", d, len(pkt), len(pkt), budget(len(pkt)), site), Count: 1})
@@ -537,10 +577,8 @@ func (w *workerState) runExplicit(j *Job) error {
 	}
 	w.announce(j.Seq, j.Lo, ei, 2, len(pkt))
 	t := time.Now()
-	a0 := w.totalAlloc()
-	res := execEntry(e, pkt)
-	a1 := w.totalAlloc()
-	r := &ExplicitResult{Entry: e.name, Len: len(pkt), Outcome: "ok", Alloc: a1 - a0, Budget: budget(len(pkt)), Micros: time.Since(t).Microseconds(), Label: label}
+	res, delta, site := w.measureProfiled(e, pkt)
+	r := &ExplicitResult{Entry: e.name, Len: len(pkt), Outcome: "ok", Alloc: delta, Budget: budget(len(pkt)), Micros: time.Since(t).Microseconds(), Label: label}
 	switch {
 	case res.pan != nil:
 		r.Outcome, r.Panic, r.PanicSite = "panic", res.pan.msg, faultSite(res.pan.stack)
@@ -549,8 +587,7 @@ func (w *workerState) runExplicit(j *Job) error {
 		r.Outcome, r.Err = "rejected", res.err.Error()
 	}
 	if res.pan == nil && r.Alloc > r.Budget {
-		w.announce(j.Seq, j.Lo, ei, 3, len(pkt))
-		r.AllocSite = allocSite(e, pkt)
+		r.AllocSite = site
 		r.Sig = fmt.Sprintf("alloc-amplification:%s:%s", e.class, r.AllocSite)
 	}
 	w.announce(j.Seq, j.Lo, -1, 0, 0)
@@ -602,7 +639,7 @@ func workerMain(shmPath string) {
 // are computed only if that family uses them.
 func loadFamilies(es []*entry, thorough bool, only string) ([]*family, *famCtx, error) {
 	c := &famCtx{thorough: thorough, es: es}
-	needBases := only == "" || !(only == "all-bytes-le2" || len(only) > 8 && only[:8] == "alphabet")
+	needBases := only == "" || !(only == "all-bytes-le2" || strings.HasPrefix(only, "alphabet") || strings.HasPrefix(only, "udp-len"))
 	if needBases {
 		b, err := buildBaselines(es)
 		if err != nil {
